@@ -232,10 +232,17 @@ def run_case(sc, opts):
                 return gen()
             raise AssertionError("scenario: unknown awaitable style %r" % (style,))
 
+        def err_text(r):
+            """class and message of the error a result carries (None for a successful one): fourth field of `save` / `hook.post`"""
+            e = getattr(r, "error", None)
+            if not getattr(r, "is_err", False) or e is None:
+                return None
+            return ("%s: %s" % (type(e).__name__, e))[:120]
+
         class RB(AsyncResultBackend):
             async def set_result(self, tid, r):
                 i = idx(tid)
-                log.add("save", i)
+                log.add("save", i, err_text(r))
                 try:
                     if sc["msgs"][i].get("save_fail"):
                         await afail(i, "backend down")
@@ -258,7 +265,7 @@ def run_case(sc, opts):
 
             async def post_execute(self, m, r):
                 i = idx(m.task_id)
-                log.add("hook.post", i)
+                log.add("hook.post", i, err_text(r))
                 if sc["msgs"][i].get("post_fail"):
                     await afail(i, "hook")
 
